@@ -205,7 +205,11 @@ def plan_for(prop, tier, seed):
                    [eng("asan", "indices", ["--max-chars", 4], 1, seed + 7, weight=4)]
         jobs += sharded("miri", "indices", ["--max-chars", 2], 16, seed + 2, mod=160 if quick else 16, **MT)
         jobs += [ex("native-rel", "errorpath", 500 if quick else 20000, 120, 4, seed + 4, weight=2),
-                 ex("native-rel", "sharing", 500 if quick else 20000, 120, 4, seed + 5, weight=2)]
+                 ex("native-rel", "sharing", 500 if quick else 20000, 120, 4, seed + 5, weight=2),
+                 # inline strings with a history (stale bytes behind the end after remove/retain): states the
+                 # enumerating engine does not construct
+                 ex("native-rel", "inline", 800 if quick else 30000, 120, 4, seed + 6, weight=2),
+                 ex("native-dbg", "inline", 100 if quick else 3000, 120, 2, seed + 7, weight=2)]
         p["jobs"] = jobs
     elif n == 8:
         jobs = [eng("native-rel", "clones", ["--shim", "shadow"], 1, seed, weight=3),
